@@ -14,7 +14,18 @@
    C12_refines: they are tied to the code by the correspondence run only (partial). *)
 From stdpp Require Import gmap list.
 From Coq Require Import NArith ZArith.
-Require Import DS.Collections DS.CollectionsSpec DS.CollectionsProof.
+Require Import DS.Collections DS.CollectionsSpec DS.CollectionsTables DS.CollectionsProof.
+Require DSG.GenCollections.
+
+(* the table regenerated from the source (directory, aliases, script-or-native, minimal argument
+   count, which mutate_* helper / StateValue arm) is the one the model is written for *)
+Theorem C12_tables :
+  DSG.GenCollections.gen_c12_understood && all2 row_ok all_cmds DSG.GenCollections.gen_c12_cmds = true.
+Proof. exact gen_table_ok. Qed.
+(* with fewer arguments than the table says every command refuses, whatever the state *)
+Theorem C12_short_args : forall ord c args s,
+  (length args < cmd_min_args c)%nat -> is_short c (spec ord c args s) = true.
+Proof. exact short_args. Qed.
 
 (* every native command, on every state and argument list, computes exactly what the
    specification says — output and handle table — and neither panics nor runs out of fuel *)
@@ -106,6 +117,18 @@ Theorem C12_verbatim_set : forall rnd ord s h x vs v,
   step_s rnd ord CSetContains [h; v] s' = (Cont (Some s_true), s').
 Proof. exact verbatim_set. Qed.
 
+(* a length printed by array_length parses back as the index it denotes; pushed values are read
+   back verbatim at the indexes following the old length *)
+Theorem C12_parse_dec : forall n, (n < 18446744073709551616)%N -> parse_usize (dec_N n) = Some n.
+Proof. exact parse_usize_dec. Qed.
+Theorem C12_verbatim_array_dec : forall rnd ord s h l vs,
+  look_list (hs s) h = Found l -> (N.of_nat (length l + length vs) < 18446744073709551616)%N ->
+  let s' := (step_s rnd ord CArrayPush (h :: vs) s).2 in
+  step_s rnd ord CArrayLength [h] s' = (Cont (Some (dec_nat (length l + length vs))), s') /\
+  forall j v, vs !! j = Some v ->
+    step_s rnd ord CArrayGet [h; dec_nat (length l + j)] s' = (Cont (Some v), s').
+Proof. exact verbatim_array_dec. Qed.
+
 (* map_keys lists exactly the keys, in an unspecified order *)
 Theorem C12_keys_perm : forall ord,
   (forall n l, ord n l ≡ₚ l) ->
@@ -127,6 +150,14 @@ Proof. exact oracles_exist. Qed.
 (* known finding F6, as a statement about the as-is definition of array_concat: after
    `a = array x ; array_concat ${a} n` (an error) the call `array_concat n` returns a new array,
    where the specification says it is an error *)
+(* ... and the deviation is confined to that situation: when no earlier array_concat failed during
+   validation (stale = None) the as-is definition and the specification agree *)
+Theorem C12_F6_confined : forall rnd ord args s,
+  stale s = None ->
+  (concat_asis rnd args s).1 = (step_s rnd ord CArrayConcat args s).1 /\
+  hs (concat_asis rnd args s).2 = hs (step_s rnd ord CArrayConcat args s).2 /\
+  draws (concat_asis rnd args s).2 = draws (step_s rnd ord CArrayConcat args s).2.
+Proof. exact concat_asis_fresh. Qed.
 Theorem C12_F6_witness :
   let nope : str := [110%N] in
   let s1 := (step_s rnd0 ord0 CArray [[120%N]] init).2 in
